@@ -6,8 +6,8 @@
 // ASSUME: the input graph file is built in memory by the real FileGraph::fromArrays (version 1) with mmap modelled as a zero-filled heap block of the requested length rounded up to 8 bytes; FileGraph objects are never destroyed
 // ASSUME: thread pool = a one-thread pool built in place; per-thread storage = bump allocator over a static page; StatTimer does nothing; no SimpleRuntimeContext is installed (calls outside a parallel loop), so acquire() is a no-op
 // ASSUME: GALOIS_DIE/GALOIS_SYS_DIE keep their abort() but drop the message formatting; a reached abort() is an assertion failure
-// OB: ob_csr_enum tier=quick unwind=14 unwindset=g__ZN6galois6graphs9FileGraph10fromArraysEPmmPvmPcmmmbi.3:26,g__ZN6galois6graphs9FileGraph10fromArraysEPmmPvmPcmmmbi.12:26 timeout=300 params=7,2 bounds="LC_CSR_Graph<int,uint32_t> and <int,void>: all 35 out-index arrays with nodes 0..3, edges 0..3; destinations (<nodes) and edge data symbolic" desc="allocateFrom(FileGraph)+constructFrom(FileGraph,0,1): nodes, edge_begin/edge_end/getEdgeDst/getEdgeData/getDegree enumerate exactly the input in file order"
-// OB: ob_csr_enum_e4 tier=thorough unwind=14 unwindset=g__ZN6galois6graphs9FileGraph10fromArraysEPmmPvmPcmmmbi.3:26,g__ZN6galois6graphs9FileGraph10fromArraysEPmmPvmPcmmmbi.12:26 timeout=300 params=5,2 bounds="as ob_csr_enum: the 21 out-index arrays with 4 edges" desc="allocateFrom+constructFrom(FileGraph,0,1) presents exactly the input (4 edges)"
+// OB: ob_csr_enum tier=quick unwind=14 unwindfn=vf_byte_:26 timeout=300 params=7,2 bounds="LC_CSR_Graph<int,uint32_t> and <int,void>: all 35 out-index arrays with nodes 0..3, edges 0..3; destinations (<nodes) and edge data symbolic" desc="allocateFrom(FileGraph)+constructFrom(FileGraph,0,1): nodes, edge_begin/edge_end/getEdgeDst/getEdgeData/getDegree enumerate exactly the input in file order"
+// OB: ob_csr_enum_e4 tier=thorough unwind=14 unwindfn=vf_byte_:26 timeout=300 params=5,2 bounds="as ob_csr_enum: the 21 out-index arrays with 4 edges" desc="allocateFrom+constructFrom(FileGraph,0,1) presents exactly the input (4 edges)"
 // OB: ob_csr_enum_api tier=quick unwind=14 timeout=300 params=7 bounds="LC_CSR_Graph<int,uint32_t>: 35 out-index arrays (edges<=3); destinations and edge data symbolic" desc="incremental builder allocateFrom(n,e)+constructNodes+fixEndEdge+constructEdge: the graph enumerates exactly the input"
 // OB: ob_csr_enum_api_e4 tier=thorough unwind=14 timeout=300 params=5,2 bounds="uint32_t and void edge data: the 21 out-index arrays with 4 edges" desc="incremental builder presents exactly the input (4 edges)"
 // OB: ob_csr_enum_vectors tier=quick unwind=20 timeout=300 params=7 bounds="LC_CSR_Graph<int,uint32_t>: 35 out-index arrays (edges<=3); std::vector<std::vector<>> inputs with concrete sizes" desc="constructFrom(numNodes,numEdges,prefix_sum,edges_id,edges_data) presents exactly the input; local range = all nodes"
@@ -29,7 +29,7 @@
 // OB: ob_csr_find_sorted_inner tier=quick unwind=14 timeout=300 params=7 bounds="as ob_csr_find_sorted, restricted to searches whose lower bound is not edge id numEdges (the complement of the out-of-bounds case)" desc="findEdgeSortedByDst: found iff present and the returned edge has destination N2, whenever the binary search does not end at edge id numEdges"
 // OB: ob_csr_find_sorted_inner_e4 tier=thorough unwind=14 timeout=300 params=5 bounds="the 21 out-index arrays with 4 edges, restricted as ob_csr_find_sorted_inner" desc="findEdgeSortedByDst (4 edges)"
 // OB: ob_csr_local tier=quick unwind=14 timeout=300 params=4 bounds="LC_CSR_Graph (interleaved flavour): 1..4 active threads (one query each), any node count < 2^32, every thread id" desc="local_begin/local_end of consecutive thread ids tile [0,numNodes)"
-// OB: ob_csr_numa tier=thorough unwind=14 unwindset=g__ZN6galois6graphs9FileGraph10fromArraysEPmmPvmPcmmmbi.3:26,g__ZN6galois6graphs9FileGraph10fromArraysEPmmPvmPcmmmbi.12:26 timeout=300 params=7 bounds="LC_CSR_Graph<int,uint32_t,false,true> (NUMA-blocked flavour, out-of-line locks variant excluded), one thread: 35 out-index arrays (edges<=3)" desc="blocked-allocation flavour built from the file presents exactly the input; local range set by constructFrom = all nodes; initializeLocalRanges keeps it"
+// OB: ob_csr_numa tier=thorough unwind=14 unwindfn=vf_byte_:26 timeout=300 params=7 bounds="LC_CSR_Graph<int,uint32_t,false,true> (NUMA-blocked flavour, out-of-line locks variant excluded), one thread: 35 out-index arrays (edges<=3)" desc="blocked-allocation flavour built from the file presents exactly the input; local range set by constructFrom = all nodes; initializeLocalRanges keeps it"
 // OB: ob_csr_divide tier=thorough unwind=14 timeout=300 params=12 bounds="all 56 out-index arrays; 1..3 divisions; node weight 0 / edge weight 1 (what initializeLocalRanges uses)" desc="LC_CSR_Graph::divideByNode: node ranges of consecutive divisions tile [0,numNodes) and each edge range is exactly the edges of the node range"
 #include "C11_common.h"
 #include "galois/graphs/LC_CSR_Graph.h"
